@@ -135,7 +135,9 @@ func (t *traversal[S, T]) visit(ctx context.Context, eg *errgroup.Group, node *v
 			err    error
 			result T
 		)
-		if !t.skip(node) {
+		// once the walk is cancelled (a visitor failed) the coordinator has released its slot:
+		// starting another visitor could exceed maxConcurrency
+		if ctx.Err() == nil && !t.skip(node) {
 			result, err = t.visitor(ctx, node.key, *node.service)
 		}
 		t.done(node, result)
